@@ -432,7 +432,7 @@ def confirm_by_cases(ctx, cmd, module, extra=None, cfg=None, extra_env=None, cfg
     def fn(rep):
         # A defect that depends on Go's map iteration order need not show on every run of the same case:
         # the case is re-run a few times; it counts as reproduced only when some run is rejected again.
-        for attempt in range(4):
+        for attempt in range(10):
             with ctx._lock:
                 ctx._n += 1
                 k = ctx._n
